@@ -57,7 +57,7 @@ def _update_state(h, k, with_none, prev):
 
 for _k, _none, _prev in [(1, False, None), (2, False, None), (2, False, 0), (2, False, 1), (3, False, None), (3, False, 2),
                          (2, True, None), (3, True, 1)]:
-    contract('C09/ensemble.__update_state/members=%d%s,previous-best=%s' % (_k, '+None' if _none else '', _prev), ['C09', 'C01', 'C05'],
+    contract('C09/ensemble.__update_state/members=%d%s,previous-best=%s' % (_k, '+None' if _none else '', _prev), ['C09', 'C01', 'C03', 'C05'],
              ENS + '.__update_state', native=False)(lambda h, k=_k, n=_none, p=_prev: _update_state(h, k, n, p))
 
 
@@ -358,9 +358,9 @@ def _ens_run(h, method):
         (E, 'AbstractEnsembleSolver.__init_allSolvers'): lambda I, c, a, k: (order.append('members'), I.st.heap.__setitem__(I.st.heap[a[0]]['_allSolvers'], list(members)), I.st.heap[a[0]]['_allSolvers'])[2],
         (E, 'AbstractEnsembleSolver.__update_allSolvers'): lambda I, c, a, k: order.append('collect'),
         (E, 'AbstractEnsembleSolver.__update_state'): lambda I, c, a, k: order.append('reduce'),
-        (E, 'AbstractEnsembleSolver.Terminated'): lambda I, c, a, k: '',
+        (E, 'AbstractEnsembleSolver.Terminated'): lambda I, c, a, k: (order.append('stop-message'), '')[1],
         (A_, 'AbstractSolver._bootstrap_objective'): lambda I, c, a, k: cost,
-        (A_, 'AbstractSolver.__save_state'): lambda I, c, a, k: None,
+        (A_, 'AbstractSolver.__save_state'): lambda I, c, a, k: order.append('forced-dump' if (k.get('force') is True or (len(a) > 1 and a[1] is True)) else 'periodic-dump'),
         ('mystic/tools.py', 'isNull'): lambda I, c, a, k: True,
     })
     if method == '_Step':
@@ -380,7 +380,13 @@ def _ens_run(h, method):
         h.check('C09/members-of-a-running-ensemble-are-not-re-initialised', 'ok', ok=(not inits and not ranges))
     h.check('C09/every-member-advanced-once-with-the-callers-callback', 'ok',
             ok=(len(advs) == 2 and [a[0] for a in advs] == members and all(a[2].get('callback') is cb for a in advs)))
-    h.check('C09/results-collected-then-reduced-to-the-best-member', 'ok', ok=(order[-2:] == ['collect', 'reduce']))
+    core = [o for o in order if o in ('collect', 'reduce')]
+    h.check('C09/results-collected-then-reduced-to-the-best-member', 'ok', ok=(core == ['collect', 'reduce']))
+    if method == '_Solve':
+        # the restart file written when the ensemble has run holds the ensemble as _Solve leaves it: members collected,
+        # best member's state taken over, stop message logged -- all before the (forced) dump
+        h.check('C06/the-forced-restart-dump-comes-last-after-the-state-is-reduced-and-the-stop-is-logged', 'ok',
+                ok=(order.count('forced-dump') == 1 and order[-1] == 'forced-dump' and 'reduce' in order and 'stop-message' in order))
     objs = [(m, a) for (nm, m, a, k) in log if nm == 'SetObjective']
     if bare:
         # such members run on the ENSEMBLE's decorated objective: the only way the ensemble's strict ranges, penalty and
@@ -391,8 +397,8 @@ def _ens_run(h, method):
         h.check('C09/members-with-their-own-objective-keep-it', 'ok', ok=(not objs))
 
 
-contract('C09/ensemble._Step/member-hand-off', ['C09', 'C07'], ENS + '._Step', native=False)(lambda h: _ens_run(h, '_Step'))
-contract('C09/ensemble._Solve/member-hand-off', ['C09', 'C07', 'C02', 'C01'], ENS + '._Solve', native=False)(lambda h: _ens_run(h, '_Solve'))
+contract('C09/ensemble._Step/member-hand-off', ['C09', 'C07', 'C03'], ENS + '._Step', native=False)(lambda h: _ens_run(h, '_Step'))
+contract('C09/ensemble._Solve/member-hand-off', ['C09', 'C07', 'C02', 'C01', 'C03', 'C06'], ENS + '._Solve', native=False)(lambda h: _ens_run(h, '_Solve'))
 
 
 @contract('C09/BuckshotSolver._InitialPoints', ['C09', 'C02'], 'mystic/ensemble.py::BuckshotSolver._InitialPoints', native=False)
